@@ -75,7 +75,7 @@ INSTANCES = [
     chain(0, 1, ['quick', 'thorough'], 3),
     chain(2, 1, ['quick', 'thorough'], 3),
     site(1, 1, ['thorough']),
-    site(4, 1, ['thorough']),
+    site(4, 1, ['quick', 'thorough']),
     site(5, 1, ['thorough']),
     chain(1, 1, ['thorough'], 4),
     chain(0, 1, ['thorough'], 4),
